@@ -15,9 +15,14 @@ structure Cfg where
   reg : Reg.Cfg := {}
   timersSurvive : Bool := true
   entityKeepsApprovals : Bool := true
+  /-- the approval tallies (`writeApprovalReceived`) of a removed connection are kept: the next connection with the same
+      SKI inherits them. Never the case in a committed tree (both the pinned commit and HEAD delete them); the flag exists
+      so that the harness can follow — and the monitor report — a tree in which it is. -/
+  tallySurvivesDrop : Bool := false
 deriving Repr
 
-def Cfg.clean : Cfg := { reg := Reg.Cfg.clean, timersSurvive := false, entityKeepsApprovals := false }
+def Cfg.clean : Cfg :=
+  { reg := Reg.Cfg.clean, timersSurvive := false, entityKeepsApprovals := false, tallySurvivesDrop := false }
 
 /-- a write waiting for approval: who sent it (connection, client feature), its counter, the server feature, and
     whether its timer is a short one (fires at the next `fire`) -/
@@ -48,6 +53,9 @@ structure St where
   csubs : List Book := []                   -- FeatureLocal.subscriptions of the local client feature
   cbinds : List Book := []                  -- FeatureLocal.bindings
   late : List Nat := []                     -- connected peers whose discovery reply has not arrived yet
+  approval2 : List (List Nat × Nat) := []   -- approval-guarded features with TWO callbacks (the others have one)
+  tally : List (Nat × Nat) := []            -- writeApprovalReceived: one element per approval given to (peer, counter)
+  tree : List Reg.Feat := []                -- what a peer announces when it (re)connects
 
 /-- a remote write from client feature (cEnt, cFeat) of peer `p` to the local server (sEnt, sFeat), counter `w` -/
 def write (s : St) (p : Nat) (cEnt : List Nat) (cFeat : Nat) (sEnt : List Nat) (sFeat w : Nat) (short : Bool) : St × String :=
@@ -62,12 +70,27 @@ def write (s : St) (p : Nat) (cEnt : List Nat) (cFeat : Nat) (sEnt : List Nat) (
 
 def isW (p w : Nat) (x : Pend) : Bool := x.peer = p && x.ctr = w
 
-/-- the application's verdict on write (p, w): effective only while the write is pending -/
+/-- how many approvals write `x` needs -/
+def need (s : St) (x : Pend) : Nat := if s.approval2.contains (x.sEnt, x.sFeat) then 2 else 1
+
+def given (t : List (Nat × Nat)) (p w : Nat) : Nat := (t.filter (· = (p, w))).length
+
+/-- the write leaves the pending state with an outcome: timer stopped, map entries and tally deleted -/
+def finish (s : St) (p w : Nat) : St :=
+  { s with pend := s.pend.filter (fun x => !isW p w x), armed := s.armed.filter (fun x => !isW p w x),
+           tally := s.tally.filter (· ≠ (p, w)) }
+
+/-- one approval for a pending write `x` of (p, w): counted while more are needed, else the write is applied -/
+def approveStep (s : St) (x : Pend) (p w : Nat) : St × String :=
+  if need s x > 1 && given ((p, w) :: s.tally) p w < need s x then ({ s with tally := (p, w) :: s.tally }, "-")
+  else (finish s p w, "applied")
+
+/-- the application's verdict (one callback's answer) on write (p, w): effective only while the write is pending; a
+    denial refuses at once, an approval applies the write when it is the last one needed -/
 def verdict (s : St) (p w : Nat) (approve : Bool) : St × String :=
-  if s.pend.any (isW p w) then
-    ({ s with pend := s.pend.filter (fun x => !isW p w x), armed := s.armed.filter (fun x => !isW p w x) },
-     if approve then "applied" else "refused")
-  else (s, "-")
+  match s.pend.find? (isW p w) with
+  | none => (s, "-")
+  | some x => if approve then approveStep s x p w else (finish s p w, "refused")
 
 /-- the short timers fire: an error result is written for each, to whatever connection the write came from -/
 def fired (s : St) : List Pend := s.armed.filter (·.short)
@@ -91,8 +114,16 @@ def drop (c : Cfg) (s : St) (p : Nat) : St :=
            alive := s.alive.filter (· ≠ p),
            pend := s.pend.filter (·.peer ≠ p),
            armed := if c.timersSurvive then s.armed else s.armed.filter (·.peer ≠ p),
+           tally := if c.tallySurvivesDrop then s.tally else s.tally.filter (·.1 ≠ p),
            csubs := s.csubs.filter (·.peer ≠ p),
            cbinds := s.cbinds.filter (·.peer ≠ p) }
+
+/-- a removed SKI connects again: a new connection, the announced tree from scratch; nothing else is created -/
+def reconnect (s : St) (p : Nat) : St :=
+  if s.alive.contains p then s else
+  { s with alive := p :: s.alive,
+           late := s.late.filter (· ≠ p),
+           reg := { s.reg with rem := fun q => if q = p then s.tree else s.reg.rem q } }
 
 def ofEntity (p : Nat) (ent : List Nat) (x : Pend) : Bool := x.peer = p && x.cEnt = ent
 
@@ -114,6 +145,7 @@ inductive Op
   | client (bind : Bool) (p : Nat) (ent : List Nat) (feat : Nat)
   | drop (p : Nat)
   | dropEnt (p : Nat) (ent : List Nat)
+  | reconnect (p : Nat)
 
 def regPeer : Reg.Op → Nat
   | .bind p .. => p
@@ -140,6 +172,7 @@ def step (c : Cfg) (s : St) : Op → St
   | .client b p e f => (clientAdd s b p e f).1
   | .drop p => drop c s p
   | .dropEnt p e => dropEntity c s p e
+  | .reconnect p => reconnect s p
 
 def run (c : Cfg) (s0 : St) (ops : List Op) : St := ops.foldl (step c) s0
 
